@@ -231,6 +231,7 @@ fn reduced_alphabet(codec: Codec) -> Vec<char> {
 }
 
 pub fn run(c: &mut Ctx) {
+    c.families(6);
     let mut log = std::fs::File::create(c.logdir.join(format!("b64_{}.jsonl", c.shard))).ok();
 
     // (1) exhaustive: all octet strings of length 0..=2
